@@ -81,6 +81,7 @@ var heapTargets = []target{
 	{"wasm_tree_grower.go", "defaultGrower.assembleBranchIndirectly"},
 	{"wasm_tree_grower.go", "defaultGrower.assembleBranchFinally"},
 	{"wasm_tree_spreader.go", "defaultSpreader.spreadBranch"},
+	{"simple_tree_verifier.go", "defaultVerifierSimple.fillDirsMarkdown"},
 }
 
 // structs that live in the heap (handled through pointers) and value structs generated here; other value structs
@@ -132,7 +133,8 @@ var heapValueStructs = map[string]string{"defaultGrowerSimple": "simple_tree_gro
 	"defaultMkdirerSimple": "simple_tree_mkdirer.go", "defaultWalkerSimple": "simple_tree_walker.go",
 	"defaultSpreaderSimple": "simple_tree_spreader.go", "defaultGrowSpreaderSimple": "simple_tree_grow_spreader.go",
 	"colorizeSpreaderSimple": "simple_tree_spreader.go",
-	"defaultGrower": "wasm_tree_grower.go", "defaultSpreader": "wasm_tree_spreader.go"}
+	"defaultGrower": "wasm_tree_grower.go", "defaultSpreader": "wasm_tree_spreader.go",
+	"defaultVerifierSimple": "simple_tree_verifier.go"}
 var srcStructs = map[string]string{"branch": "node.go", "branchFormat": "simple_tree_grower.go"}
 
 type hfn struct {
@@ -154,6 +156,7 @@ type hfn struct {
 	allocsJ  bool // allocates a record
 	allocs   bool // allocates a node (`&Node{…}`): the allocator `al_` (the next unused pointer) is threaded
 	usesIdx  bool // uses the package-level counter idxCounter (threaded as `idx_`)
+	mutParam string // a set parameter (`map[string]struct{}`) the function inserts into: returned
 	mutRecv  bool // changes a counter field of its receiver: the receiver is returned
 	usesStk  bool // a method of *stack: reads the stack of open nodes (the world component stk_, root first)
 	writesStk bool // pushes or pops
@@ -188,6 +191,11 @@ func typeStr(e ast.Expr) string {
 		return "[]" + typeStr(x.Elt)
 	case *ast.SelectorExpr:
 		return typeStr(x.X) + "." + x.Sel.Name
+	case *ast.MapType:
+		if st, ok := x.Value.(*ast.StructType); ok && (st.Fields == nil || len(st.Fields.List) == 0) {
+			return "map[" + typeStr(x.Key) + "]struct{}"
+		}
+		return "?"
 	case *ast.FuncType:
 		var ps, rs []string
 		for _, p := range x.Params.List {
@@ -229,6 +237,8 @@ func (t *htr) leanType(g string) string {
 		return "(Go.Ptr → σ → σ × (Option Src.Err))"
 	case "*list.Element":
 		return "Go.Ptr"
+	case "map[string]struct{}":
+		return "(List Bytes)" // a set of strings: its elements in insertion order (`Go.setInsert`)
 	case "*counter":
 		return "Int" // a counter is its count (counter.go: next / reset / current under a mutex)
 	}
@@ -479,6 +489,9 @@ func (f *hfn) outs() []string {
 	}
 	if f.usesIdx {
 		o = append(o, "idx_")
+	}
+	if f.mutParam != "" {
+		o = append(o, id(f.mutParam))
 	}
 	return o
 }
@@ -774,6 +787,23 @@ func (t *htr) scopeOf(f *hfn) *hscope {
 func (t *htr) analyse() {
 	hasLoop := map[string]bool{}
 	for _, f := range t.fns {
+		for _, p := range f.params {
+			if p[1] == "map[string]struct{}" {
+				name := p[0]
+				ast.Inspect(f.decl.Body, func(n ast.Node) bool {
+					if as, ok := n.(*ast.AssignStmt); ok {
+						for _, l := range as.Lhs {
+							if ie, ok := l.(*ast.IndexExpr); ok {
+								if idt, ok := ie.X.(*ast.Ident); ok && idt.Name == name {
+									f.mutParam = name
+								}
+							}
+						}
+					}
+					return true
+				})
+			}
+		}
 		if heapStructOf(f.recvType) == recStruct {
 			f.usesJ = true
 		}
@@ -1384,7 +1414,24 @@ func (t *htr) assigned(sc *hscope, stmts []ast.Stmt) []string {
 func (t *htr) bindCall(sc *hscope, lhs []string, x *ast.CallExpr, g *callee, c *hcont, ind string) string {
 	app := t.call(sc, x, g)
 	var names []string
-	names = append(names, g.outs...)
+	for _, o := range g.outs {
+		if g.fn != nil && g.fn.mutParam != "" && o == id(g.fn.mutParam) {
+			// the set the callee inserted into is the caller's argument
+			for i, p := range g.fn.params {
+				if p[0] == g.fn.mutParam && i < len(x.Args) {
+					if idt, ok := x.Args[i].(*ast.Ident); ok {
+						o = id(idt.Name)
+					}
+				}
+			}
+		}
+		names = append(names, o)
+	}
+	names0 := names
+	_ = names0
+	names = append([]string{}, names...)
+	if false {
+	}
 	for i, r := range g.results {
 		if strings.HasPrefix(r, "~") {
 			continue
@@ -1824,6 +1871,10 @@ func (t *htr) assignH(sc *hscope, x *ast.AssignStmt, c *hcont, ind string) strin
 		return ind + t.fail(x.Pos(), "multiple assignment") + "\n"
 	}
 	switch l := x.Lhs[0].(type) {
+	case *ast.IndexExpr:
+		if idt, ok := l.X.(*ast.Ident); ok && sc.vars[idt.Name] == "map[string]struct{}" {
+			return ind + "let " + id(idt.Name) + " := Go.setInsert " + id(idt.Name) + " " + t.ex(sc, l.Index, "string") + "\n"
+		}
 	case *ast.Ident:
 		ty := t.typeOf(sc, x.Rhs[0])
 		if old, ok := sc.vars[l.Name]; ok && x.Tok != token.DEFINE {
@@ -2065,6 +2116,8 @@ func groupOf(file string) string {
 		return "Arena"
 	case "wasm_tree_grower.go", "wasm_tree_spreader.go":
 		return "Wasm"
+	case "simple_tree_verifier.go":
+		return "Verify"
 	}
 	return "Misc"
 }
@@ -2111,6 +2164,8 @@ func (t *htr) function(f *hfn) string {
 			rts = append(rts, "Go.Ptr")
 		case "idx_":
 			rts = append(rts, "Int")
+		case id(f.mutParam):
+			rts = append(rts, "(List Bytes)")
 		default:
 			rts = append(rts, t.leanType(f.recvType)) // the receiver, returned with its counters
 		}
